@@ -10,7 +10,10 @@ Coq (Model/VecStars.v, Proofs/VecStars_proofs.v):
     solve A (Phi y) = b and the same bilinear b.x = beta.y, and At = Phi^T A Phi.
 Tie / evaluation (every run, floats 1e-10): orthonormality, equivariance under every g in G,
 count per star, and GFexpansion / rateexpansions / biasexpansions / bareexpansions / outer contracted
-with random rates against Phi^T A Phi for A assembled by brute force from the states and jumps."""
+with random rates against Phi^T A Phi for A assembled by brute force from the states and jumps.
+History tier: StarSet.generate(N') on the same object followed by VectorStarSet.generate on the same object
+(N' growing and shrinking), and VacancyMediated.generate(2)/generate(1): the regenerated object must equal a
+freshly constructed one (Nvstars, vecpos, vecvec 1e-12, outer) and pass orthonormality/equivariance/count."""
 META = dict(
     level="proof",
     text=("Theorems: (1) soundness of the fixed-space dimension certificate checker over Z (all integer matrix lists, 3-D "
@@ -114,10 +117,135 @@ def blockI(n, dim, entries):
     return np.kron(entries, np.eye(dim))
 
 
+
+# ---- history tier: a regenerated VectorStarSet must equal a freshly constructed one --------------------
+def basic_props(crys, chem, S, V, ops):
+    """orthonormality error, equivariance error, (Nvstars, exact invariant dimension) of one vector-star object"""
+    dim = crys.dim
+    sts = [sc.ps_of(s) for s in S.states]
+    pos = {s: x for x, s in enumerate(sts)}
+    n = len(sts)
+    if any(len(p) != len(v) for p, v in zip(V.vecpos, V.vecvec)) or len(V.vecpos) != V.Nvstars \
+            or any(x >= n for p in V.vecpos for x in p):
+        return None
+    Phi = phi_matrix(S, V, dim)
+    orth = float(np.abs(Phi.T @ Phi - np.eye(V.Nvstars)).max()) if V.Nvstars else 0.
+    eq = 0.
+    for g, gi in zip(crys.G, ops):
+        perm = [pos.get(sc.gact(gi, s)) for s in sts]
+        if any(x is None for x in perm): return None
+        P = np.zeros_like(Phi)
+        R = np.asarray(g.cartrot)
+        for x in range(n):
+            P[perm[x] * dim:(perm[x] + 1) * dim, :] = R @ Phi[x * dim:(x + 1) * dim, :]
+        eq = max(eq, float(np.abs(P - Phi).max()) if Phi.size else 0.)
+    total = 0
+    for st in S.stars:
+        rep = sts[st[0]]
+        mats = sorted(set(gi[0] for gi in ops if sc.gact(gi, rep) == rep))
+        total += fixed_certificate(mats)[0] - (3 - dim)
+    return orth, eq, (V.Nvstars, total)
+
+
+def same_vset(Vr, Sr, Vf, Sf):
+    """regenerated (Vr on Sr) against fresh (Vf on Sf): list of (key, message); None if the two star sets list their
+    states in a different order (then only the property checks apply)"""
+    if [sc.ps_of(s) for s in Sr.states] != [sc.ps_of(s) for s in Sf.states] or \
+            [list(map(int, st)) for st in Sr.stars] != [list(map(int, st)) for st in Sf.stars]:
+        return None
+    bad = []
+    if Vr.Nvstars != Vf.Nvstars or len(Vr.vecpos) != len(Vf.vecpos) or len(Vr.vecvec) != len(Vf.vecvec):
+        bad.append(("nvstars", "regenerated object has %d vector stars (lists %d/%d), a fresh one %d" %
+                    (Vr.Nvstars, len(Vr.vecpos), len(Vr.vecvec), Vf.Nvstars)))
+        return bad
+    if [list(map(int, p)) for p in Vr.vecpos] != [list(map(int, p)) for p in Vf.vecpos]:
+        bad.append(("vecpos", "vecpos of the regenerated object differs from a fresh one")); return bad
+    e = max([float(np.abs(np.asarray(a) - np.asarray(b)).max()) for va, vb in zip(Vr.vecvec, Vf.vecvec) for a, b in zip(va, vb)] + [0.])
+    if e > 1e-12: bad.append(("vecvec", "vecvec of the regenerated object differs from a fresh one by %.3g" % e))
+    if Vr.outer.shape != Vf.outer.shape or np.abs(Vr.outer - Vf.outer).max(initial=0.) > 1e-12:
+        bad.append(("outer", "outer of the regenerated object differs from a fresh one"))
+    return bad
+
+
+def history_tier(ck, violation, label, crys, chem, sl, jn, cut, ops, max_states, vm_max_states, stats):
+    """StarSet / VectorStarSet objects regenerated in place over a history of ranges, and the VacancyMediated
+    generate(2)/generate(1) route; every regenerated object must equal a fresh one and satisfy the basic properties"""
+    from onsager import crystalStars, OnsagerCalc
+    rng = ck.rng
+    info0 = {"crystal": repr(crys), "label": label, "chem": chem, "cutoff": cut, "tier": "history"}
+    fresh = {}
+
+    def fresh_for(N):
+        if N not in fresh:
+            Sf = crystalStars.StarSet(jn, crys, chem, N, originstates=True)
+            fresh[N] = (Sf, crystalStars.VectorStarSet(Sf) if Sf.Nstates <= max_states else None)
+        return fresh[N]
+
+    def judge(Vr, Sr, N, info, what):
+        Sf, Vf = fresh_for(N)
+        if Vf is None: return
+        cmpres = same_vset(Vr, Sr, Vf, Sf)
+        if cmpres is None: stats["order-differs"] += 1
+        for key, msg in (cmpres or []):
+            violation("history-" + key, "%s: %s" % (what, msg), info)
+        pr = basic_props(crys, chem, Sr, Vr, ops)
+        fr = basic_props(crys, chem, Sf, Vf, ops)
+        if pr is None:
+            violation("history-structure", "%s: regenerated vector stars are not consistent with the star set" % what, info)
+        elif fr is not None:
+            # demand of the regenerated object exactly what the fresh one satisfies (a defect of fresh objects is reported
+            # by the main tier under its own key)
+            if pr[0] > TOL and fr[0] <= TOL:
+                violation("history-orthonormal", "%s: regenerated vector stars not orthonormal (%.3g)" % (what, pr[0]), info)
+            if pr[1] > TOL and fr[1] <= TOL:
+                violation("history-equivariant", "%s: regenerated vector stars not equivariant (%.3g)" % (what, pr[1]), info)
+            if pr[2][0] != pr[2][1] and fr[2][0] == fr[2][1]:
+                violation("history-count", "%s: regenerated object has %d vector stars, invariant dimension %d" % (what, pr[2][0], pr[2][1]), info)
+        stats["regenerations"] += 1
+
+    # (a) same StarSet and VectorStarSet objects, ranges growing and shrinking
+    seqs = [[1, 2, 1], [2, 3, 2, 1, 3]] if fresh_for(3)[1] is not None else [[1, 2, 1, 2]]
+    seqs.append([rng.choice([1, 2, 3] if fresh_for(3)[1] is not None else [1, 2]) for _ in range(4)])
+    for seq in seqs:
+        info = dict(info0, route="StarSet.generate + VectorStarSet.generate", history=seq)
+        try:
+            S = crystalStars.StarSet(jn, crys, chem, seq[0], originstates=True)
+            V = crystalStars.VectorStarSet(S)
+            for k, N in enumerate(seq[1:], 1):
+                S.generate(N, originstates=True)
+                V.generate(S)
+                judge(V, S, N, dict(info, step=k, N=N), "vset.generate after S.generate(%d)" % N)
+        except Exception as e:
+            violation("history-exception", "regeneration raised %s: %s" % (type(e).__name__, e), info)
+        ck.case(key=(label, repr(crys), round(cut, 5), "hist", tuple(seq)), nontrivial=len(set(seq)) > 1,
+                kind="history:%dD-starset" % crys.dim,
+                sample={"tier": "history", "crystal": label, "history": seq} if stats["regenerations"] < 8 else None)
+    # (b) the calculator: VacancyMediated(..., 1) then generate(2) then generate(1)  (kinetic range = Nthermo + 1)
+    if fresh_for(3)[0].Nstates <= vm_max_states:
+        info = dict(info0, route="VacancyMediated.generate", history=[1, 2, 1])
+        try:
+            d = OnsagerCalc.VacancyMediated(crys, chem, sl, jn, 1)
+            for k, Nth in enumerate((2, 1), 1):
+                d.generate(Nth)
+                judge(d.vkinetic, d.kinetic, Nth + 1, dict(info, step=k, Nthermo=Nth), "VacancyMediated.generate(%d)" % Nth)
+                Sf, Vf = fresh_for(Nth + 1)
+                if Vf is not None and same_vset(d.vkinetic, d.kinetic, Vf, Sf) == []:
+                    gf = Vf.GFexpansion()[0]
+                    if d.GFexpansion.shape != gf.shape or np.abs(d.GFexpansion - gf).max(initial=0.) > 1e-12:
+                        violation("history-gfexpansion", "GFexpansion after VacancyMediated.generate(%d) differs from a fresh one" % Nth, info)
+        except Exception as e:
+            violation("history-exception", "VacancyMediated regeneration raised %s: %s" % (type(e).__name__, e), info)
+        ck.case(key=(label, repr(crys), round(cut, 5), "hist-vm"), nontrivial=True, kind="history:%dD-vacancymediated" % crys.dim)
+    else:
+        stats["vacancymediated-too-large"] += 1
+
+
 def run(ck):
     ck.rule = ("crystal pool (named + random crystal systems, 2-D/3-D, 1-3 atoms of the mobile species, polar and non-polar "
                "sites) x percolating cutoff x N in {1,2,3} with origin states x random rates per class (uniform in [0.5,2]); "
-               "distinct = distinct (crystal, cutoff, N); non-trivial = at least 3 vector stars")
+               "distinct = distinct (crystal, cutoff, N); non-trivial = at least 3 vector stars; history tier: the same StarSet/"
+               "VectorStarSet objects regenerated over growing and shrinking ranges (fixed and random sequences) and "
+               "VacancyMediated(...,1).generate(2).generate(1), each regenerated object compared with a fresh one")
     ck.trusted += ["harness/starcase.py, c25.py: integer view of crys.G, certificate search (Fractions), numpy assembly of A"]
     ck.theorems()
     from onsager import crystalStars
@@ -137,6 +265,8 @@ def run(ck):
     certs, certmeta, certseen = [], [], set()
     skipped = {"nonpercolating": 0, "construct-failed": 0, "geometry": 0, "too-large": 0}
     maxerr = {}
+    nhist = 0
+    hstats = {"regenerations": 0, "order-differs": 0, "vacancymediated-too-large": 0}
 
     def violation(key, msg, info, detail=None):
         d = dict(info); d.update(detail or {})
@@ -166,6 +296,9 @@ def run(ck):
         G = list(crys.G)
         u = crys.basis[chem]
         info0 = {"crystal": repr(crys), "label": label, "chem": chem, "cutoff": cut}
+        if nhist < ck.n(8, 40):
+            nhist += 1
+            history_tier(ck, violation, label, crys, chem, sl, jn, cut, ops, max_states, ck.n(160, 330), hstats)
         for N in (1, 2, 3):
             info = dict(info0, N=N)
             try:
@@ -271,6 +404,7 @@ def run(ck):
     ck.extra["fixed_dim_certificates_checked_in_coq"] = len(codes)
     ck.extra["max_float_residuals"] = {k: float("%.3g" % v) for k, v in maxerr.items()}
     ck.extra["skipped"] = skipped
+    ck.extra["history_tier"] = hstats
     ck.extra["zeroclean_equivalence_checks"] = zc["checked"]
     ck.extra["traces_validated_against_impl"] = len(codes)
     crystalStars.zeroclean = orig_zeroclean
